@@ -90,7 +90,7 @@ type c11Input struct {
 	Target string // get mutate scan regioninfo decompress multi
 	Op     string
 	Data   []byte
-	Count  int32   // associated cell count (get/mutate)
+	Count  int32    // associated cell count (get/mutate)
 	Cells  []uint32 // cells_per_result (scan)
 	Flags  []bool   // partial flags (scan)
 	Extra  any
@@ -257,7 +257,7 @@ func init() {
 		},
 		Floors: func(tier string) map[string]int64 {
 			return map[string]int64{"evaluations": 2000000, "target_get": 20000, "target_mutate": 20000, "target_scan": 20000,
-				"target_regioninfo": 20000, "target_decompress": 20000, "target_frame-multi": 5000, "target_frame-get": 2000, "target_frame-scan": 2000, "target_frame-mutate": 2000, "decoder_ok": 1000, "decoder_error": 50000}
+				"target_regioninfo": 20000, "target_decompress": 20000, "target_frame-multi": 5000, "target_frame-get": 2000, "target_frame-scan": 2000, "target_frame-mutate": 2000, "client_level_cases": 1000, "decoder_ok": 1000, "decoder_error": 50000}
 		},
 		Run: runC11,
 	})
